@@ -4,7 +4,8 @@ Explicit-state exploration: a batch state is the tuple of per-world situations; 
 alphabet to nworld in {2,3} worlds (every ordering and batch position) are simulated for 3 steps with a control
 change, and after every step each world must equal, bit for bit, the same situation simulated alone (nworld=1):
 integration state, outputs, contacts and constraint rows.  Variants: plain, sparse Jacobian, elliptic cone, sleeping
-enabled, delayed actuator, shared contact buffer exactly sufficient for the batch.
+enabled, delayed actuator, shared contact buffer exactly sufficient for the batch, a 9-box grid under the three broadphases with
+sleeping, and `sleepers` (40 steps; worlds whose trees fall asleep at different steps, so island counts differ between worlds).
 """
 
 import itertools
